@@ -15,21 +15,34 @@ open Wntr.Sched (Vals)
 
 variable {A RN RL : Type}
 
-/-- the run-loop world of a scheduler configuration: presolve is the C04 model, the rest is arbitrary over the controlled
-values and a hidden state `A` -/
-def schedWorld (scfg : Wntr.Sched.Cfg)
+/-- where a presolve pass `s ↦ s'` leaves the clock and the rule clock (the part of `Wntr.Sched.Landed` the run loop needs) -/
+structure Lands (scfg : Wntr.Sched.Cfg) (s s' : Wntr.Sched.St) : Prop where
+  gt : s.prevTime < s'.simTime
+  le : s'.simTime ≤ s.simTime
+  iter_lo : s'.ruleIter * scfg.rule - scfg.rule ≤ s'.simTime
+  iter_hi : s'.simTime < s'.ruleIter * scfg.rule
+  rl : Wntr.Sched.RL scfg.rule s'.ruleIter s'.ruleLog
+
+/-- the run-loop world over the scheduler state with presolve pass `P` (the C04 model, the interpreted generated program, or
+the C04 loop over any due list); the solver and the post-solve controls are arbitrary over the controlled values and a hidden state `A` -/
+def schedWorldP (P : Bool → Wntr.Sched.St → Wntr.Sched.St)
     (solveF : Vals × A → Nat → Bool → (Vals × A) × SolveOutcome) (postF : Vals × A → (Vals × A) × Bool)
     (nodeRowF : Wntr.Sched.St × A → RN) (linkRowF : Wntr.Sched.St × A → RL) : World (Wntr.Sched.St × A) RN RL where
   presolve := fun w t p first =>
-    ((Wntr.Sched.presolve scfg first { w.1 with simTime := t, prevTime := p }, w.2),
-     (Wntr.Sched.presolve scfg first { w.1 with simTime := t, prevTime := p }).simTime)
+    ((P first { w.1 with simTime := t, prevTime := p }, w.2), (P first { w.1 with simTime := t, prevTime := p }).simTime)
   solve := fun w n b => (({ w.1 with vals := (solveF (w.1.vals, w.2) n b).1.1 }, (solveF (w.1.vals, w.2) n b).1.2),
                          (solveF (w.1.vals, w.2) n b).2)
   post := fun w => (({ w.1 with vals := (postF (w.1.vals, w.2)).1.1 }, (postF (w.1.vals, w.2)).1.2), (postF (w.1.vals, w.2)).2)
   nodeRow := nodeRowF
   linkRow := linkRowF
 
-variable (scfg : Wntr.Sched.Cfg)
+/-- the world whose presolve pass is the hand-written C04 model -/
+def schedWorld (scfg : Wntr.Sched.Cfg)
+    (solveF : Vals × A → Nat → Bool → (Vals × A) × SolveOutcome) (postF : Vals × A → (Vals × A) × Bool)
+    (nodeRowF : Wntr.Sched.St × A → RN) (linkRowF : Wntr.Sched.St × A → RL) : World (Wntr.Sched.St × A) RN RL :=
+  schedWorldP (Wntr.Sched.presolve scfg) solveF postF nodeRowF linkRowF
+
+variable (scfg : Wntr.Sched.Cfg) (P : Bool → Wntr.Sched.St → Wntr.Sched.St)
   (solveF : Vals × A → Nat → Bool → (Vals × A) × SolveOutcome) (postF : Vals × A → (Vals × A) × Bool)
   (nodeRowF : Wntr.Sched.St × A → RN) (linkRowF : Wntr.Sched.St × A → RL) (cfg : Cfg)
 
@@ -53,44 +66,46 @@ theorem J.inv {s : St (Wntr.Sched.St × A) RN RL} (j : J scfg s) (hr : s.resolve
   ⟨j.lt, (j.fresh hr).1, (j.fresh hr).2, j.rl⟩
 
 /-- the contract at one state -/
-theorem presolveOK_of_J (hR : 0 < scfg.rule) {s : St (Wntr.Sched.St × A) RN RL} (j : J scfg s) :
-    PresolveOK (schedWorld scfg solveF postF nodeRowF linkRowF) s := by
+theorem presolveOK_of_J (hP : ∀ first s, Wntr.Sched.Inv scfg s → Lands scfg s (P first s))
+    {s : St (Wntr.Sched.St × A) RN RL} (j : J scfg s) :
+    PresolveOK (schedWorldP P solveF postF nodeRowF linkRowF) s := by
   intro _ hr
-  have L := Wntr.Sched.presolve_landed hR s.firstStep (j.inv scfg hr)
+  have L := hP s.firstStep _ (j.inv scfg hr)
   exact ⟨L.gt, L.le⟩
 
-theorem presolve_JM (hR : 0 < scfg.rule) {s : St (Wntr.Sched.St × A) RN RL} (j : J scfg s) :
-    JM scfg (presolvePhase (schedWorld scfg solveF postF nodeRowF linkRowF) s) := by
+theorem presolve_JM (hP : ∀ first s, Wntr.Sched.Inv scfg s → Lands scfg s (P first s))
+    {s : St (Wntr.Sched.St × A) RN RL} (j : J scfg s) :
+    JM scfg (presolvePhase (schedWorldP P solveF postF nodeRowF linkRowF) s) := by
   cases hr : s.resolve with
   | true =>
     rw [presolvePhase_resolve _ hr]
     exact ⟨j.lt, j.rl, (j.mid hr).1, (j.mid hr).2⟩
   | false =>
     rw [presolvePhase_fresh _ hr]
-    have L := Wntr.Sched.presolve_landed hR s.firstStep (j.inv scfg hr)
+    have L := hP s.firstStep _ (j.inv scfg hr)
     exact ⟨L.gt, L.rl, L.iter_hi, L.iter_lo⟩
 
 theorem solveCall_JM {s : St (Wntr.Sched.St × A) RN RL} (j : JM scfg s) (b : Bool) :
-    JM scfg (solveCall (schedWorld scfg solveF postF nodeRowF linkRowF) s b).1 :=
+    JM scfg (solveCall (schedWorldP P solveF postF nodeRowF linkRowF) s b).1 :=
   ⟨j.lt, j.rl, j.hi, j.lo⟩
 
 theorem solve_JM {s : St (Wntr.Sched.St × A) RN RL} (j : JM scfg s) :
-    JM scfg (solvePhase (schedWorld scfg solveF postF nodeRowF linkRowF) cfg s).1 := by
-  have e : solvePhase (schedWorld scfg solveF postF nodeRowF linkRowF) cfg s =
-      if (!(solveCall (schedWorld scfg solveF postF nodeRowF linkRowF) s false).2.ok && cfg.backup) = true then
-        solveCall (schedWorld scfg solveF postF nodeRowF linkRowF)
-          (solveCall (schedWorld scfg solveF postF nodeRowF linkRowF) s false).1 true
-      else solveCall (schedWorld scfg solveF postF nodeRowF linkRowF) s false := rfl
+    JM scfg (solvePhase (schedWorldP P solveF postF nodeRowF linkRowF) cfg s).1 := by
+  have e : solvePhase (schedWorldP P solveF postF nodeRowF linkRowF) cfg s =
+      if (!(solveCall (schedWorldP P solveF postF nodeRowF linkRowF) s false).2.ok && cfg.backup) = true then
+        solveCall (schedWorldP P solveF postF nodeRowF linkRowF)
+          (solveCall (schedWorldP P solveF postF nodeRowF linkRowF) s false).1 true
+      else solveCall (schedWorldP P solveF postF nodeRowF linkRowF) s false := rfl
   rw [e]
-  by_cases h : (!(solveCall (schedWorld scfg solveF postF nodeRowF linkRowF) s false).2.ok && cfg.backup) = true
+  by_cases h : (!(solveCall (schedWorldP P solveF postF nodeRowF linkRowF) s false).2.ok && cfg.backup) = true
   · simp only [if_pos h]
-    exact solveCall_JM scfg solveF postF nodeRowF linkRowF (solveCall_JM scfg solveF postF nodeRowF linkRowF j false) true
+    exact solveCall_JM scfg P solveF postF nodeRowF linkRowF (solveCall_JM scfg P solveF postF nodeRowF linkRowF j false) true
   · simp only [if_neg h]
-    exact solveCall_JM scfg solveF postF nodeRowF linkRowF j false
+    exact solveCall_JM scfg P solveF postF nodeRowF linkRowF j false
 
 theorem accept_J (hH : 1 ≤ cfg.hyd) {s : St (Wntr.Sched.St × A) RN RL} (j : JM scfg s) (_hh : s.halt = none) :
-    (acceptPhase (schedWorld scfg solveF postF nodeRowF linkRowF) cfg s).halt ≠ none ∨
-      J scfg (acceptPhase (schedWorld scfg solveF postF nodeRowF linkRowF) cfg s) := by
+    (acceptPhase (schedWorldP P solveF postF nodeRowF linkRowF) cfg s).halt ≠ none ∨
+      J scfg (acceptPhase (schedWorldP P solveF postF nodeRowF linkRowF) cfg s) := by
   have hm1 := Int.emod_lt_of_pos (s.simTime + cfg.hyd) (by omega : 0 < cfg.hyd)
   have hlo := j.lo; have hhi := j.hi
   unfold acceptPhase
@@ -108,8 +123,8 @@ theorem accept_J (hH : 1 ≤ cfg.hyd) {s : St (Wntr.Sched.St × A) RN RL} (j : J
       exact ⟨by simp only; omega, j.rl, fun _ => ⟨by simp only; omega, by simp only; omega⟩, fun h => by simp at h⟩
 
 theorem post_J (hH : 1 ≤ cfg.hyd) {s : St (Wntr.Sched.St × A) RN RL} (j : JM scfg s) (hh : s.halt = none) :
-    (postPhase (schedWorld scfg solveF postF nodeRowF linkRowF) cfg s).halt ≠ none ∨
-      J scfg (postPhase (schedWorld scfg solveF postF nodeRowF linkRowF) cfg s) := by
+    (postPhase (schedWorldP P solveF postF nodeRowF linkRowF) cfg s).halt ≠ none ∨
+      J scfg (postPhase (schedWorldP P solveF postF nodeRowF linkRowF) cfg s) := by
   unfold postPhase
   simp only
   split
@@ -117,35 +132,35 @@ theorem post_J (hH : 1 ≤ cfg.hyd) {s : St (Wntr.Sched.St × A) RN RL} (j : JM 
     · left; simp
     · right
       exact ⟨j.lt, j.rl, fun h => by simp at h, fun _ => ⟨j.hi, j.lo⟩⟩
-  · exact accept_J scfg solveF postF nodeRowF linkRowF cfg hH
-      (s := { s with w := ((schedWorld scfg solveF postF nodeRowF linkRowF).post s.w).1 })
+  · exact accept_J scfg P solveF postF nodeRowF linkRowF cfg hH
+      (s := { s with w := ((schedWorldP P solveF postF nodeRowF linkRowF).post s.w).1 })
       ⟨j.lt, j.rl, j.hi, j.lo⟩ hh
 
 /-- one pass keeps the scheduler invariant (or leaves the loop) -/
-theorem step_J (hR : 0 < scfg.rule) (hH : 1 ≤ cfg.hyd) {s : St (Wntr.Sched.St × A) RN RL} (j : J scfg s) (hh : s.halt = none) :
-    (step (schedWorld scfg solveF postF nodeRowF linkRowF) cfg s).halt ≠ none ∨
-      J scfg (step (schedWorld scfg solveF postF nodeRowF linkRowF) cfg s) := by
-  have j1 := presolve_JM scfg solveF postF nodeRowF linkRowF hR j
-  have j2 := solve_JM scfg solveF postF nodeRowF linkRowF cfg j1
-  have h2 : (solvePhase (schedWorld scfg solveF postF nodeRowF linkRowF) cfg
-      (presolvePhase (schedWorld scfg solveF postF nodeRowF linkRowF) s)).1.halt = none := by
-    obtain ⟨w', l, heq, _⟩ := solvePhase_spec (schedWorld scfg solveF postF nodeRowF linkRowF) cfg
-      (presolvePhase (schedWorld scfg solveF postF nodeRowF linkRowF) s)
+theorem step_J (hP : ∀ first s, Wntr.Sched.Inv scfg s → Lands scfg s (P first s)) (hH : 1 ≤ cfg.hyd) {s : St (Wntr.Sched.St × A) RN RL} (j : J scfg s) (hh : s.halt = none) :
+    (step (schedWorldP P solveF postF nodeRowF linkRowF) cfg s).halt ≠ none ∨
+      J scfg (step (schedWorldP P solveF postF nodeRowF linkRowF) cfg s) := by
+  have j1 := presolve_JM scfg P solveF postF nodeRowF linkRowF hP j
+  have j2 := solve_JM scfg P solveF postF nodeRowF linkRowF cfg j1
+  have h2 : (solvePhase (schedWorldP P solveF postF nodeRowF linkRowF) cfg
+      (presolvePhase (schedWorldP P solveF postF nodeRowF linkRowF) s)).1.halt = none := by
+    obtain ⟨w', l, heq, _⟩ := solvePhase_spec (schedWorldP P solveF postF nodeRowF linkRowF) cfg
+      (presolvePhase (schedWorldP P solveF postF nodeRowF linkRowF) s)
     rw [heq]
     cases hr : s.resolve with
     | true => rw [presolvePhase_resolve _ hr]; exact hh
     | false => rw [presolvePhase_fresh _ hr]; exact hh
   rw [step_running _ cfg hh]
   split
-  · exact post_J scfg solveF postF nodeRowF linkRowF cfg hH j2 h2
+  · exact post_J scfg P solveF postF nodeRowF linkRowF cfg hH j2 h2
   · left; simp
 
 /-- **the contract holds along every run of a scheduler world that starts from a state satisfying `Sched.Inv`** -/
-theorem sched_contract (hR : 0 < scfg.rule) (hH : 1 ≤ cfg.hyd) (s0 : St (Wntr.Sched.St × A) RN RL)
+theorem sched_contract (hP : ∀ first s, Wntr.Sched.Inv scfg s → Lands scfg s (P first s)) (hH : 1 ≤ cfg.hyd) (s0 : St (Wntr.Sched.St × A) RN RL)
     (h0 : s0.halt ≠ none ∨ J scfg s0) :
-    Contract (schedWorld scfg solveF postF nodeRowF linkRowF) cfg s0 := by
-  have key : ∀ n, (iter (schedWorld scfg solveF postF nodeRowF linkRowF) cfg n s0).halt ≠ none ∨
-      J scfg (iter (schedWorld scfg solveF postF nodeRowF linkRowF) cfg n s0) := by
+    Contract (schedWorldP P solveF postF nodeRowF linkRowF) cfg s0 := by
+  have key : ∀ n, (iter (schedWorldP P solveF postF nodeRowF linkRowF) cfg n s0).halt ≠ none ∨
+      J scfg (iter (schedWorldP P solveF postF nodeRowF linkRowF) cfg n s0) := by
     intro n
     induction n with
     | zero => exact h0
@@ -153,12 +168,40 @@ theorem sched_contract (hR : 0 < scfg.rule) (hH : 1 ≤ cfg.hyd) (s0 : St (Wntr.
       rw [iter_succ']
       rcases ih with ih | ih
       · rw [step_of_halted _ cfg ih]; exact Or.inl ih
-      · by_cases hh : (iter (schedWorld scfg solveF postF nodeRowF linkRowF) cfg n s0).halt = none
-        · exact step_J scfg solveF postF nodeRowF linkRowF cfg hR hH ih hh
+      · by_cases hh : (iter (schedWorldP P solveF postF nodeRowF linkRowF) cfg n s0).halt = none
+        · exact step_J scfg P solveF postF nodeRowF linkRowF cfg hP hH ih hh
         · rw [step_of_halted _ cfg hh]; exact Or.inl hh
   intro n
   rcases key n with h | h
   · intro hn; exact absurd hn h
-  · exact presolveOK_of_J scfg solveF postF nodeRowF linkRowF hR h
+  · exact presolveOK_of_J scfg P solveF postF nodeRowF linkRowF hP h
+
+/-! ### three presolve passes that land -/
+
+/-- the hand-written C04 scheduler -/
+theorem lands_presolve (hR : 0 < scfg.rule) (first : Bool) (s : Wntr.Sched.St) (inv : Wntr.Sched.Inv scfg s) :
+    Lands scfg s (Wntr.Sched.presolve scfg first s) := by
+  have L := Wntr.Sched.presolve_landed hR first inv
+  exact ⟨L.gt, L.le, L.iter_lo, L.iter_hi, L.rl⟩
+
+/-- the C04 loop over ANY due list that is sorted by decreasing backtrack with every backtrack in `[0, cur − prev)`
+(`Wntr.Sched.LoopCtx`): time conditions, tank-level conditions (`Wntr.Tank.tank_backtrack_inside_step`), any mixture -/
+theorem lands_loop (due : List Wntr.Sched.Due) (s : Wntr.Sched.St) (inv : Wntr.Sched.Inv scfg s)
+    (ctx : Wntr.Sched.LoopCtx scfg due s.simTime s.prevTime) :
+    Lands scfg s (Wntr.Sched.presolveLoop scfg s.vals due (Wntr.Sched.presolveFuel scfg due s) 0 s) := by
+  have hinv : Wntr.Sched.LoopInv scfg due s.simTime s.prevTime 0 s := by
+    refine ⟨rfl, rfl, inv.hi, by have := inv.lo; have := inv.lt; omega, ?_, inv.rl⟩
+    intro d hd
+    have := ctx.back_hi d (List.mem_of_mem_drop hd)
+    have := inv.lo
+    omega
+  have hm : Wntr.Sched.loopMeasure scfg due s.simTime 0 s < Wntr.Sched.presolveFuel scfg due s := by
+    simp only [Wntr.Sched.loopMeasure, Wntr.Sched.presolveFuel]; omega
+  have L : Wntr.Sched.Landed scfg due s.vals s.simTime s.prevTime
+      (Wntr.Sched.presolveLoop scfg s.vals due (Wntr.Sched.presolveFuel scfg due s) 0 s) :=
+    Wntr.Sched.presolveLoop_rule scfg s.vals due (Wntr.Sched.LoopInv scfg due s.simTime s.prevTime)
+      (Wntr.Sched.Landed scfg due s.vals s.simTime s.prevTime) (Wntr.Sched.loopMeasure scfg due s.simTime)
+      (fun cnt s' h => Wntr.Sched.loopStep_spec ctx cnt s' h) _ 0 s hinv hm
+  exact ⟨L.gt, L.le, L.iter_lo, L.iter_hi, L.rl⟩
 
 end Wntr.RunLoop
